@@ -6,7 +6,7 @@ from registry import PROPS
 from manifest_text import TEXT, NOT_YET
 
 ALL = [f"C{i:02d}" for i in range(1, 21)]
-hook_commit = os.popen("git -C /repo log --format=%H -n1 -- app/verif_hooks.go").read().strip()
+hook_commits = os.popen("git -C /repo log --reverse --format=%H -- app/verif_hooks.go").read().split()
 m = {
     "version": 1,
     "setup_cmd": "bin/setup",
@@ -14,7 +14,7 @@ m = {
         "guard": "verif",
         "enable": "go build -tags verif (the harness module in /verif/harness replaces canine-chain by /repo and is always built with -tags verif)",
         "baseline_off_cmd": "bin/baseline",
-        "source_commits": [hook_commit],
+        "source_commits": hook_commits,
         "add_only": True,
     },
     "engines": [
